@@ -107,9 +107,27 @@ def prop(case):
                 raise Violation(f'{what}: next state of {stn[k]} (<- {nl["st"][k]["d"]}) = {got_st[k][t]} for inputs/state {combos[t]}, the netlist '
                                 f'computes {exp_st[k][t]}\n{text if "bench" not in what else ""}')
 
+    # sometimes a second module (the same netlist rendered differently) follows in the same text: parse then returns both circuits
+    second = None
+    if case['seed'] % 4 == 0:
+        text2, truth2 = render_verilog(nl, lib, case['seed'] // 4 + 1, modname='second_module')
+        second = (text2, truth2)
     circuits = {}
     for bf in (False, True):
-        c = verilog.parse(text, tlib=tlib, branchforks=bf)
+        if second is None:
+            c = verilog.parse(text, tlib=tlib, branchforks=bf)
+        else:
+            both = verilog.parse(text + '\n' + second[0], tlib=tlib, branchforks=bf)
+            if not isinstance(both, list) or len(both) != 2:
+                raise Violation(f'text with two modules: parse returned {type(both).__name__} instead of two circuits')
+            c, c2 = both
+            if c2.name != 'second_module' or [n.name if n is not None else None for n in c2.io_nodes] != second[1]['ports']:
+                raise Violation(f'second module: name {c2.name!r}, io_nodes {[n.name if n is not None else None for n in c2.io_nodes]} != {second[1]["ports"]}\n{text}\n{second[0]}')
+            structural(c2, f'second module (branchforks={bf})')
+            c2.resolve_tlib_cells(tlib)
+            text_saved, text = text, text + '\n' + second[0]
+            check(c2, f'verilog/{lib} second module in one text, branchforks={bf}', second[1]['pi'], second[1]['po'], second[1]['st'])
+            text = text_saved
         if c.name != 'top':
             raise Violation(f'module name {c.name!r}')
         names = [n.name if n is not None else None for n in c.io_nodes]
@@ -163,6 +181,7 @@ def prop(case):
     if has_assign: labels.append('assign')
     if complex_cell: labels.append('complex_cell')
     if truth['skipped']: labels.append('scan_ff')
+    if second is not None: labels.append('two_modules_in_one_text')
     if '\\' in text: labels.append('escaped_names')
     return Obs(((asc and desc) or has_assign) and complex_cell, labels, checks=2 * sims * (len(nl['po']) + nst))
 
